@@ -464,6 +464,13 @@ class Guards:
                 for (val, rk) in reach_k:
                     if val not in can and val != "otherwise":
                         out.append("%s is not %s" % (inner, names.get(val, "#" + val)))
+                if "otherwise" not in can:
+                    # only listed arms lead here (`A | B => ..`): every variant that is none of them is excluded
+                    for k_, n_ in names.items():
+                        if k_ not in can:
+                            a_ = "%s is not %s" % (inner, n_)
+                            if a_ not in out:
+                                out.append(a_)
         # `if !seen.insert(x) { refuse }`: insert answered true, so x was not in the set before - the same fact as a
         # `contains` test that answered false (and the other way round)
         for a in list(out):
